@@ -784,6 +784,9 @@ def judge_case(ctx: core.Ctx, rec: dict, answers: list) -> List[str]:
         # structural agreement (never an alarm): optional keys, order of the puts
         agree = all(i in m_docs and doc_shape(parsed[i]) == model_doc_shape(m_docs[i], tok) for i in parsed)
         ctx.count('structural:documents-%s' % ('agree' if agree else 'differ'))
+        if getattr(case, 'pre_other', None):
+            m_writes = [w for w in m_writes if all(w != x.identifier for x in case.pre_other)]   # written by the other storage
+            obs['writes'] = [w for w in obs['writes'] if all(w != x.identifier for x in case.pre_other)]
         ctx.count('structural:put-order-%s' % ('agree' if obs['writes'] == m_writes else 'differ'))
         rec['structural'] = agree and obs['writes'] == m_writes
         # 4. the fresh storage loads everything; loaded == original; same declared interface
@@ -1049,6 +1052,18 @@ def small_scope(ctx) -> List[Case]:
                 kw['parameter_constraints'] = ['v1 < 1000'] if pm else ['v0 < 1000']
             cases.append(Built([P.MappingPT(inner, identifier=ident(), **kw)], backend=['dict', 'fs', 'zip'][len(cases) % 3],
                                assign=[{'d0': 1.5, 'v0': 0.3, 'v1': 1 / 3}]))
+    # MappingPT directly around an anonymous MappingPT: merged unless the inner one carries constraints; dropped channels
+    for inner_cons, drop, outer_named_child in itertools.product((False, True), (False, True), (False, True)):
+        leaf = P.ConstantPT('d0', {'A': 'v0', 'B': 'v0*2'}, measurements=[('m', 0, 1)],
+                            identifier=ident('c') if outer_named_child else None)
+        ikw = {'parameter_mapping': {'v0': 'v1 + 1'}, 'channel_mapping': {'B': None} if drop else {'B': 'C'}}
+        if inner_cons:
+            ikw['parameter_constraints'] = ['v1 < 1000']
+        inner = P.MappingPT(leaf, **ikw)
+        outer = P.MappingPT(inner, parameter_mapping={'v1': 'v2*2'}, channel_mapping={'A': 'Z'},
+                            measurement_mapping={'m': 'mm'}, identifier=ident())
+        cases.append(Built([outer], backend=['dict', 'fs', 'zip'][len(cases) % 3],
+                           assign=[{'d0': 1.5, 'v2': 1 / 3}, {'d0': 1, 'v2': 5000}]))
     # AbstractPT: every subset of the declared interface
     keys = ['defined_channels', 'parameter_names', 'measurement_names', 'integral', 'duration']
     vals = {'defined_channels': {'A', 'B'}, 'parameter_names': {'p', 'q'}, 'measurement_names': {'m'},
@@ -1287,10 +1302,10 @@ def run(ctx: core.Ctx):
     opts = {'depth': 3}
     # a rejected / failing store on the same PulseStorage must not affect later stores
     af_opts = {'depth': 2, 'roots': 2, 'assignments': 1}
-    run_cases(ctx, after_failure_cases(ctx, ctx.n(36, 600), 'after-failure', af_opts), 'after-failure')
+    run_cases(ctx, after_failure_cases(ctx, ctx.n(30, 600), 'after-failure', af_opts), 'after-failure')
     if ctx.quick:
-        run_cases(ctx, random_cases(ctx, 210, 'random', opts), 'random')
-        run_cases(ctx, random_cases(ctx, 30, 'abstract', dict(opts, allow_abstract=True)), 'abstract')
+        run_cases(ctx, random_cases(ctx, 170, 'random', opts), 'random')
+        run_cases(ctx, random_cases(ctx, 24, 'abstract', dict(opts, allow_abstract=True)), 'abstract')
     else:
         import multiprocessing
         jobs = []
